@@ -223,3 +223,35 @@ func init() {
 		return Value{K: KIface, R: &IfaceV{T: iv.T, V: Value{K: KMap, R: dst}}}, true
 	}
 }
+
+// ---- diagnostics and clocks a developer may add: logging is discarded, wall-clock time is the zero instant ----
+func init() {
+	discard := func(in *Interp, fr *Frame, a []Value) (Value, bool) { return Value{}, true }
+	ix := map[string]ixFn{
+		"log.Printf": discard, "log.Println": discard, "log.Print": discard,
+		"(*log.Logger).Printf": discard, "(*log.Logger).Println": discard, "(*log.Logger).Print": discard,
+		"(*log.Logger).Output": func(in *Interp, fr *Frame, a []Value) (Value, bool) { return nilErr, true },
+		"os.Getenv":            func(in *Interp, fr *Frame, a []Value) (Value, bool) { return mkStr(""), true },
+		"os.LookupEnv": func(in *Interp, fr *Frame, a []Value) (Value, bool) {
+			return tuple(mkStr(""), mkBool(false)), true
+		},
+		"runtime.Gosched": func(in *Interp, fr *Frame, a []Value) (Value, bool) {
+			in.yieldNow = true
+			return Value{}, true
+		},
+		"runtime.NumCPU":     func(in *Interp, fr *Frame, a []Value) (Value, bool) { return mkInt(4, 64), true },
+		"runtime.GOMAXPROCS": func(in *Interp, fr *Frame, a []Value) (Value, bool) { return mkInt(4, 64), true },
+		"time.Now": func(in *Interp, fr *Frame, a []Value) (Value, bool) {
+			return zero(in.namedType("time", "Time")), true
+		},
+		"time.Since": func(in *Interp, fr *Frame, a []Value) (Value, bool) { return mkInt(0, 64), true },
+		"time.Until": func(in *Interp, fr *Frame, a []Value) (Value, bool) { return mkInt(0, 64), true },
+		"time.Sleep": func(in *Interp, fr *Frame, a []Value) (Value, bool) {
+			in.yieldNow = true
+			return Value{}, true
+		},
+	}
+	for k, f := range ix {
+		intrinsics[k] = f
+	}
+}
